@@ -23,5 +23,21 @@ for s in $SEEDS; do
   done
   echo "$s:$fired"
 done
+# self-tests of the checks: reverts of the repairs and hand-made mutants must be detected, benign refactorings must stay quiet
+if [ $# -eq 0 ]; then
+for f in $V/selftest/reverts/*.diff $V/selftest/mutants/*.diff $V/selftest/benign_*.diff; do
+  name=$(basename $f .diff)
+  cd $MX/repo && git checkout -q -- . && git apply $f 2>/dev/null || { echo "selftest $name: PATCH-DOES-NOT-APPLY"; continue; }
+  fired=""
+  for p in $PROPS; do
+    out=$(cd $V && ./check $p 2>/dev/null)
+    if echo "$out" | grep -q "^VIOLATION"; then
+      rules=$(echo "$out" | grep -E "^\s+\S+ \[" | awk '{print $1}' | sort -u | tr '\n' ',' )
+      fired="$fired $p(${rules%,})"
+    elif echo "$out" | grep -q "CHECK-BROKEN"; then fired="$fired $p(BROKEN)"; fi
+  done
+  case $name in benign_*) echo "selftest $name:$fired [must be empty]";; *) echo "selftest $name:$fired";; esac
+done
+fi
 cd $MX/repo && git checkout -q -- .
 rm -rf $MX/work/target-*
